@@ -1,6 +1,7 @@
 package scen
 
 import (
+	"bytes"
 	"unicode/utf16"
 	"unicode/utf8"
 
@@ -232,13 +233,13 @@ func refGBDecode(b []byte) (string, bool) {
 	if err != nil {
 		return "", false
 	}
-	for len(out) > 0 {
-		r, n := utf8.DecodeRune(out)
-		if r == utf8.RuneError {
+	// the decoder writes U+FFFD for octets that are no character; a text may also contain a genuine U+FFFD
+	// (84 31 A4 37). What tells them apart: only a faithful decoding encodes back to the very octets.
+	if bytes.ContainsRune(out, utf8.RuneError) {
+		back, err := simplifiedchinese.GB18030.NewEncoder().Bytes(out)
+		if err != nil || !bytes.Equal(back, b) {
 			return "", false
 		}
-		out = out[n:]
 	}
-	s, _ := simplifiedchinese.GB18030.NewDecoder().Bytes(b)
-	return string(s), true
+	return string(out), true
 }
